@@ -143,5 +143,6 @@ pub fn behaviour() -> Behaviour {
         thorough: 20000,
         batch: 25,
         assumptions: &[],
+        miri_units: 0,
     }
 }
